@@ -60,7 +60,9 @@ def v1_prices(df):
 
 
 def make_v1(df, name="gmx1"):
-    return GmxMarket(MarketInfo(name, MarketTypeEnum.gmx_v1), tokens=list(V1_TOKENS), data=df)
+    m = GmxMarket(MarketInfo(name, MarketTypeEnum.gmx_v1), tokens=list(V1_TOKENS), data=df)
+    m.add_token(V1_TOKENS[0])  # registering a token of the basket once more changes nothing: the basket is a set
+    return m
 
 
 # ---- exact reference of the Vault / GlpManager rules (integer arithmetic, as the contracts) -------------------
@@ -196,6 +198,15 @@ def v2_prices(df, market):
 
 POS_F, NEG_F, EXP = 2e-10, 4e-10, 2
 DEP_FEE_POS, DEP_FEE_NEG, WD_FEE = 0.0005, 0.0007, 0.0007
+V2_FEES = {"dep_pos": DEP_FEE_POS, "dep_neg": DEP_FEE_NEG, "wd": WD_FEE}  # the pool's fee factors are configuration: a check may set others (market and reference alike)
+
+
+def set_v2_fees(market=None, dep_pos=DEP_FEE_POS, dep_neg=DEP_FEE_NEG, wd_pos=0.0005, wd_neg=WD_FEE):
+    V2_FEES.update(dep_pos=dep_pos, dep_neg=dep_neg, wd=wd_neg)
+    if market is not None:
+        c = market.pool_config
+        c.depositFeeFactorForPositiveImpact, c.depositFeeFactorForNegativeImpact = dep_pos, dep_neg
+        c.withdrawFeeFactorForPositiveImpact, c.withdrawFeeFactorForNegativeImpact = wd_pos, wd_neg
 
 
 def v2_impact(row, long_usd, short_usd):
@@ -233,7 +244,7 @@ def v2_mint(row, long_amt, short_amt):
         if amt <= 0:
             continue
         share = imp * val / (lv + sv)
-        fee = amt * (DEP_FEE_POS if share > 0 else DEP_FEE_NEG)
+        fee = amt * (V2_FEES["dep_pos"] if share > 0 else V2_FEES["dep_neg"])
         after = amt - fee
         if share > 0:
             pos_amt = min(share / p_out, row["impactPoolAmount"])
@@ -248,8 +259,8 @@ def v2_mint(row, long_amt, short_amt):
 def v2_redeem(row, gm):
     usd = gm * row["poolValue"] / row["marketTokensSupply"]
     lu, su = row["longAmount"] * row["longPrice"], row["shortAmount"] * row["shortPrice"]
-    long_out = usd * lu / (lu + su) / row["longPrice"] * (1 - WD_FEE)
-    short_out = usd * su / (lu + su) / row["shortPrice"] * (1 - WD_FEE)
+    long_out = usd * lu / (lu + su) / row["longPrice"] * (1 - V2_FEES["wd"])
+    short_out = usd * su / (lu + su) / row["shortPrice"] * (1 - V2_FEES["wd"])
     return long_out, short_out
 
 
